@@ -16,7 +16,7 @@ LEVEL = 'exploration'
 RULE = ('Engine A: lattice of experiment frames with cooldown: 4 shapes x n_pre in {3 (one residual degree of freedom),4,6,10} x n_test in {1,2,4} x cooldown in '
         '{1,2} x control swing in the test period in {0, 20, 80, 240} (so that the reference cumulative scale decreases) x '
         'unassigned-period dates in {none, lead, gap, trail} x cost scenario in {fixed, variable, treatment-pre-cost-only (control never spends: slope-free cost regression), low-spend (the fitted line predicts negative spend on some dates)} x metric in {response, cost} x '
-        'level in {0.6,0.8,0.9,0.95} x tails x object state in {fresh, already fitted to ANOTHER experiment and asked for all reports}. Oracle: the call succeeds; lower <= estimate <= upper on every date for all three '
+        'level in {0.6,0.8,0.9,0.95} x tails x object state in {fresh, already fitted to ANOTHER experiment and asked for all reports} x unit in {1, 2^-20 (the same experiment expressed in millions; all tolerances scale with the unit)}. Oracle: the call succeeds; lower <= estimate <= upper on every date for all three '
         'series; counterfactual + pointwise = observed treatment series; pre-period pointwise = reference OLS residuals; last '
         'cumulative row = incremental effect and the reference quantiles; series cover exactly the analysed dates. Known '
         'finding K1 is keyed by the REFERENCE condition "cumulative scale of the closed-form posterior is not non-decreasing" '
@@ -45,6 +45,8 @@ def cases(tier, seed):
                                     'scen': scen, 'extra': extra, 'metric': metric, 'level': level, 'tails': tails})
                         if thorough or extra is None:
                             out.append(dict(out[-1], state='refit'))
+                        if (thorough or extra is None) and swing == 0:
+                            out.append(dict(out[-2] if (thorough or extra is None) else out[-1], unit=2.0 ** -20))
     return out
 
 
@@ -53,6 +55,8 @@ def run_case(case):
     npre, ntest, ncool = spec['npre'], spec['ntest'], spec['ncool']
     x, y, periods = frames.series(spec)
     cc, ct = c07.cost_series(case['scen'], x, npre, ntest, ncool, spec.get('seed', 0))
+    u = float(case.get('unit', 1.0))      # the same experiment expressed in another UNIT (e.g. millions): exact power of two
+    x, y, cc, ct = u * x, u * y, u * cc, u * ct
     extra = [(case['extra'], -1)] if case['extra'] else None
     df = frames.build(x, y, periods, cost_c=cc, cost_t=ct, extra_dates=extra)
     viol = []
@@ -107,32 +111,32 @@ def run_case(case):
         if not (np.all(lo <= es + 1e-9 * (1 + np.abs(es))) and np.all(es <= up + 1e-9 * (1 + np.abs(es)))):
             add('ordering-' + name, '%s: lower <= estimate <= upper fails on some date' % tag)
     obs = np.asarray(ys, float)
-    if not np.allclose(np.asarray(cf['estimate'], float) + np.asarray(pw['estimate'], float), obs, rtol=1e-9, atol=1e-7):
+    if not np.allclose(np.asarray(cf['estimate'], float) + np.asarray(pw['estimate'], float), obs, rtol=1e-9, atol=1e-7 * u):
         add('counterfactual-plus-pointwise', '%s: counterfactual + pointwise != observed treatment series' % tag)
     if fixed_cost:
-        if not np.allclose(np.asarray(pw['estimate'], float), obs, atol=1e-9):
+        if not np.allclose(np.asarray(pw['estimate'], float), obs, atol=1e-9 * u):
             add('fixed-cost-pointwise', '%s: pointwise cost effect != observed cost' % tag)
-        if not math.isclose(float(np.asarray(cu['estimate'], float)[-1]), float(obs[npre:].sum()), rel_tol=1e-9, abs_tol=1e-9):
+        if not math.isclose(float(np.asarray(cu['estimate'], float)[-1]), float(obs[npre:].sum()), rel_tol=1e-9, abs_tol=1e-9 * u):
             add('fixed-cost-cumulative', '%s: last cumulative %r != total test cost %r' % (tag, float(np.asarray(cu['estimate'])[-1]), float(obs[npre:].sum())))
     elif degenerate:
         ypre = np.asarray(ys[:npre], float)
-        if not np.allclose(np.asarray(pw['estimate'], float)[:npre], ypre - ypre.mean(), rtol=1e-8, atol=1e-6):
+        if not np.allclose(np.asarray(pw['estimate'], float)[:npre], ypre - ypre.mean(), rtol=1e-8, atol=1e-6 * u):
             add('pre-period-residuals', '%s: pre-period pointwise differences are not the residuals (control constant: y - mean(y))' % tag)
         cum_ref = np.cumsum(np.asarray(ys[npre:], float) - ypre.mean())
-        if not np.allclose(np.asarray(cu['estimate'], float), cum_ref, rtol=1e-8, atol=1e-6):
+        if not np.allclose(np.asarray(cu['estimate'], float), cum_ref, rtol=1e-8, atol=1e-6 * u):
             add('cumulative-estimates', '%s: cumulative estimates differ from cumsum(y_t - mean(y_pre)) with a constant control series' % tag)
     else:
         res = post['fit']['res']
-        if not np.allclose(np.asarray(pw['estimate'], float)[:npre], res, rtol=1e-8, atol=1e-6):
+        if not np.allclose(np.asarray(pw['estimate'], float)[:npre], res, rtol=1e-8, atol=1e-6 * u):
             add('pre-period-residuals', '%s: pre-period pointwise differences are not the OLS residuals' % tag)
         q = stats.t.ppf((1 - case['level']) / case['tails'], post['df'])
         L, S = post['loc'][-1], post['scale'][-1]
         last = cu.iloc[-1]
-        if not (math.isclose(last['estimate'], L, rel_tol=1e-8, abs_tol=1e-6) and math.isclose(last['lower'], L + q * S, rel_tol=1e-8, abs_tol=1e-6)
-                and math.isclose(last['upper'], L - q * S, rel_tol=1e-8, abs_tol=1e-6)):
+        if not (math.isclose(last['estimate'], L, rel_tol=1e-8, abs_tol=1e-6 * u) and math.isclose(last['lower'], L + q * S, rel_tol=1e-8, abs_tol=1e-6 * u)
+                and math.isclose(last['upper'], L - q * S, rel_tol=1e-8, abs_tol=1e-6 * u)):
             add('cumulative-last-row', '%s: last cumulative row (%r, %r, %r), closed form (%r, %r, %r)' % (
                 tag, last['lower'], last['estimate'], last['upper'], L + q * S, L, L - q * S))
-        if not np.allclose(np.asarray(cu['estimate'], float), post['loc'], rtol=1e-8, atol=1e-6):
+        if not np.allclose(np.asarray(cu['estimate'], float), post['loc'], rtol=1e-8, atol=1e-6 * u):
             add('cumulative-estimates', '%s: cumulative estimates differ from the closed form on some date' % tag)
     return {'viol': viol, 'nontrivial': True, 'outcome': ['ok', mono, fixed_cost, degenerate]}
 
